@@ -565,7 +565,8 @@ static inline double cmb_random_pareto(const double shape, const double mode)
     cmb_assert_release(shape > 0.0);
     cmb_assert_release(mode > 0.0);
 
-    const double x = mode / pow(cmb_random(), 1.0 / shape);
+    /* Uniform on (0, 1], avoiding a division by zero for a zero draw */
+    const double x = mode / pow(1.0 - cmb_random(), 1.0 / shape);
 
     cmb_assert_debug(x >= mode);
     return x;
